@@ -1,6 +1,7 @@
 use crate::ev::Ctx;
 
 pub mod alphabet;
+pub mod c01;
 pub mod c02;
 pub mod c04;
 pub mod c07;
@@ -11,16 +12,24 @@ pub mod c10;
 pub mod c11;
 pub mod c13;
 pub mod c14;
+pub mod c17;
+pub mod c20;
 pub mod codec;
 
 pub fn run(ctx: &Ctx) -> Result<(), String> {
     match ctx.id.as_str() {
+        "C01" => c01::run_c01(ctx),
+        "C03" => c01::run_c03(ctx),
         "C02" => c02::run(ctx),
         "C04" => c04::run(ctx),
         "C07" => c07::run(ctx),
         "C08" => c08::run(ctx),
         "C09" => c09::run(ctx),
+        "C10" => c10::run(ctx),
+        "C11" => c11::run(ctx),
         "C12" => c12::run(ctx),
+        "C17" => c17::run(ctx),
+        "C20" => c20::run(ctx),
         "C13" => c13::run(ctx),
         "C14" => c14::run(ctx),
         "C05" => codec::run(ctx, codec::Which::C05),
@@ -51,12 +60,18 @@ pub fn replay(path: &str) -> i32 {
     let mut bad = 0;
     for (k, c) in cases.iter().enumerate() {
         let r: Result<Option<String>, String> = match id.as_str() {
+            "C01" => c01::replay_case(c),
+            "C03" => c01::replay_case_c03(c),
             "C02" => c02::replay_case(c),
             "C04" => c04::replay_case(c),
             "C07" => c07::replay_case(c),
             "C08" => c08::replay_case(c),
             "C09" => c09::replay_case(c),
+            "C10" => c10::replay_case(c),
+            "C11" => c11::replay_case(c),
             "C12" => c12::replay_case(c),
+            "C17" => c17::replay_case(c),
+            "C20" => c20::replay_case(c),
             "C13" => c13::replay_case(c),
             "C14" => c14::replay_case(c),
             "C05" => codec::replay_case(c, codec::Which::C05),
